@@ -11,6 +11,8 @@ expression that has judged samples is a violation.
 
 from __future__ import annotations
 
+import math
+
 import numpy as np
 
 from ..models import exproracle as ox
@@ -154,7 +156,10 @@ def run_case(case_no, spec, rng, res, use_numba, grid, ScalarExpression, TensorE
                 have_arr = have_arr.astype(float)
             res.count("samples_judged")
             if have_arr.shape != () or not np.isfinite(float(np.real(have_arr))) or abs(float(np.real(have_arr)) - want) > tol or abs(float(np.imag(have_arr))) > tol:
-                res.violation(f"{route}: value differs from the written formula", {**case, "arguments": args}, have=have, want=want, tolerance=tol)
+                mech = None
+                if have_arr.shape == () and not np.isfinite(float(np.real(have_arr))) and explained_by_abs_of_power(expr, {**args, **consts}, want, tol):
+                    mech = "simplify-moves-fractional-power-inside-abs"
+                res.violation(f"{route}: value differs from the written formula", {**case, "arguments": args}, mechanism=mech, have=have, want=want, tolerance=tol)
                 return False
             return True
 
@@ -194,8 +199,13 @@ def run_case(case_no, spec, rng, res, use_numba, grid, ScalarExpression, TensorE
                 res.count("array_evaluations")
                 if out.shape == ():
                     out = np.full(wants.shape, float(out))  # constant expression
-                if out.shape != wants.shape or (np.abs(out - wants) > tols).any():
-                    res.violation(f"{b} function with array arguments is not the elementwise formula", case, have=out, want=wants)
+                if out.shape != wants.shape or not (np.abs(out - wants) <= tols).all():
+                    mech = None
+                    if out.shape == wants.shape:
+                        bad = ~(np.abs(out - wants) <= tols)
+                        if not np.isfinite(out[bad]).any() and all(explained_by_abs_of_power(expr, {**samples[i][0], **consts}, wants[i], tols[i]) for i in np.nonzero(bad)[0]):
+                            mech = "simplify-moves-fractional-power-inside-abs"
+                    res.violation(f"{b} function with array arguments is not the elementwise formula", case, mechanism=mech, have=out, want=wants)
                     ok = False
                     break
                 stacked = np.array(arrs)
@@ -203,7 +213,7 @@ def run_case(case_no, spec, rng, res, use_numba, grid, ScalarExpression, TensorE
                 res.count("array_evaluations")
                 if out1.shape == ():
                     out1 = np.full(wants.shape, float(out1))
-                if out1.shape != wants.shape or (np.abs(out1 - wants) > tols).any():
+                if out1.shape != wants.shape or not (np.abs(out1 - wants) <= tols).all():
                     res.violation(f"{b} function with single_arg=True differs from the formula", case, have=out1, want=wants)
                     ok = False
                     break
@@ -226,7 +236,7 @@ def run_case(case_no, spec, rng, res, use_numba, grid, ScalarExpression, TensorE
                 want_k = wants * karr + karr
                 if out.shape == ():
                     out = np.full(want_k.shape, float(out))  # simplified to a constant
-                if out.shape != want_k.shape or (np.abs(out - want_k) > tols * (np.abs(karr) + 1) + 1e-12 * np.abs(want_k)).any():
+                if out.shape != want_k.shape or not (np.abs(out - want_k) <= tols * (np.abs(karr) + 1) + 1e-12 * np.abs(want_k)).all():
                     res.violation("array-valued constant is not applied elementwise", {**case, "expression": text_k}, have=out, want=want_k)
                 res.count("array_evaluations")
             except Exception as exc:
@@ -256,7 +266,7 @@ def run_case(case_no, spec, rng, res, use_numba, grid, ScalarExpression, TensorE
                         res.violation(f"symbolic derivative with respect to {var} differs from the derivative of the formula", {**case, "arguments": args}, have=have, want=dwant)
                         break
                     g = np.asarray(grad(*vals), dtype=float)
-                    if g.shape != (len(variables),) or abs(g[variables.index(var)] - dwant) > dtol:
+                    if g.shape != (len(variables),) or not abs(g[variables.index(var)] - dwant) <= dtol:
                         res.violation("entry of `derivatives` differs from the derivative of the formula", {**case, "arguments": args}, have=g, want=dwant)
                         break
             except Exception as exc:
@@ -279,13 +289,13 @@ def run_case(case_no, spec, rng, res, use_numba, grid, ScalarExpression, TensorE
                 try:
                     sf = pde.ScalarField.from_expression(grid, text)
                     res.count("field_constructions")
-                    if (np.abs(sf.data - want_f) > tol_f).any():
+                    if not (np.abs(sf.data - want_f) <= tol_f).all():
                         res.violation("ScalarField.from_expression differs from the formula at the cell centres", case, have=sf.data, want=want_f)
                     vf = pde.VectorField.from_expression(grid, [text, "x - y"])
-                    if (np.abs(vf.data[0] - want_f) > tol_f).any() or not np.allclose(vf.data[1], grid.cell_coords[..., 0] - grid.cell_coords[..., 1], rtol=1e-13, atol=1e-15):
+                    if not (np.abs(vf.data[0] - want_f) <= tol_f).all() or not np.allclose(vf.data[1], grid.cell_coords[..., 0] - grid.cell_coords[..., 1], rtol=1e-13, atol=1e-15):
                         res.violation("VectorField.from_expression: components differ from the formulas", case)
                     tf = pde.Tensor2Field.from_expression(grid, [["1", text], ["y", "x"]])
-                    if (np.abs(tf.data[0, 1] - want_f) > tol_f).any() or not np.allclose(tf.data[1, 0], grid.cell_coords[..., 1]) or not np.allclose(tf.data[0, 0], 1):
+                    if not (np.abs(tf.data[0, 1] - want_f) <= tol_f).all() or not np.allclose(tf.data[1, 0], grid.cell_coords[..., 1]) or not np.allclose(tf.data[0, 0], 1):
                         res.violation("Tensor2Field.from_expression: components are misplaced or differ from the formulas", case)
                 except Exception as exc:
                     res.violation(f"from_expression raised {type(exc).__name__}: {str(exc)[:200]}", case)
@@ -299,7 +309,7 @@ def run_case(case_no, spec, rng, res, use_numba, grid, ScalarExpression, TensorE
                 out = np.asarray(te(*vals), dtype=float)
                 res.count("tensor_expressions")
                 expect = np.array([[want, vals[0] ** 2], [2.0, vals[-1] + 1]])
-                if out.shape != (2, 2) or (np.abs(out - expect) > tol + 1e-12 * (np.abs(expect) + 1)).any():
+                if out.shape != (2, 2) or not (np.abs(out - expect) <= tol + 1e-12 * (np.abs(expect) + 1)).all():
                     res.violation("TensorExpression entries differ from the formulas", {**case, "expression": ttext}, have=out, want=expect)
             except Exception as exc:
                 res.violation(f"TensorExpression raised {type(exc).__name__}: {str(exc)[:200]}", {**case, "expression": ttext})
@@ -309,7 +319,65 @@ def run_case(case_no, spec, rng, res, use_numba, grid, ScalarExpression, TensorE
             res.sample({**case, "first_sample": {"arguments": samples[0][0], "value": samples[0][1]}})
 
 
+def explained_by_abs_of_power(expr, env, want, tol) -> bool:
+    """Alternative-model predicate of known finding F22.
+
+    The package's simplified form contains Abs(<product with a non-integer power>); over the
+    reals |b**p| = |b|**p, so the model is that same form with every non-integer power under
+    an Abs taken of |base| instead of base, evaluated through the same numpy code generation.
+    The finding is matched iff this model reproduces the written formula (the only difference
+    to what the package evaluates is the real-number power of a negative base, i.e. nan)."""
+    import sympy
+    from pde.tools import expressions as px
+
+    try:
+        form = expr._sympy_expr
+
+        def nonint(q):
+            return isinstance(q, sympy.Pow) and q.exp.is_integer is not True
+
+        targets = [a for a in form.atoms(sympy.Abs) if any(nonint(q) for q in a.args[0].atoms(sympy.Pow))]
+        if not targets:
+            return False
+        repl = {a: sympy.Abs(a.args[0].replace(nonint, lambda q: sympy.Pow(sympy.Abs(q.base), q.exp))) for a in targets}
+        model = form.xreplace(repl)
+        syms = sorted(model.free_symbols, key=lambda q: q.name)
+        if any(q.name not in env for q in syms):
+            return False
+        namespace = {**getattr(px, "SPECIAL_FUNCTIONS", {}), **getattr(expr, "user_funcs", {})}
+        fn = sympy.lambdify(syms, model, modules=[namespace, "numpy"])
+        with np.errstate(all="ignore"):
+            val = complex(fn(*[env[q.name] for q in syms]))
+        return bool(abs(val.real - want) <= 10 * tol + 1e-9 * abs(want) and abs(val.imag) <= 10 * tol + 1e-9 * abs(want))
+    except Exception:
+        return False
+
+
 def run_fixed_cases(res, use_numba, ScalarExpression):
+    if res.spec.get("known_finding_probe"):
+        # fixed witness of known finding F22 (reported on every run)
+        text, x = "1/sqrt(abs(x))", -0.41
+        e = ScalarExpression(text, signature=["x"])
+        want = 1 / math.sqrt(abs(x))
+        for b in ["numpy"] + (["numba"] if use_numba else []):
+            have = float(e.get_function(b)(x))
+            if not abs(have - want) <= 1e-12 * want:
+                mech = "simplify-moves-fractional-power-inside-abs" if not np.isfinite(have) and explained_by_abs_of_power(e, {"x": x}, want, 1e-12) else None
+                res.violation(f"{b} function: value differs from the written formula", {"expression": text, "sympy_form": str(e._sympy_expr), "arguments": {"x": x}},
+                              mechanism=mech, have=have, want=want)
+    # ---- integer coefficients beyond 64 bits (power towers) ---------------------------------------------------
+    for text, x, want in [("(x + x)**81", 0.6, 1.2**81), ("(3*x)**45 - x", 0.4, 1.2**45 - 0.4), ("x * 2**64 + 1", 0.5, 2.0**63 + 1), ("(x / 3)**50 * 3**50", 1.5, 1.5**50)]:
+        e = None
+        try:
+            e = ScalarExpression(text, signature=["x"])
+            for b in ["numpy"] + (["numba"] if use_numba else []):
+                have = float(e.get_function(b)(x))
+                res.count("samples_judged")
+                if not abs(have - want) <= 1e-12 * abs(want):
+                    res.violation(f"{b} function: value differs from the written formula", {"expression": text, "arguments": {"x": x}}, have=have, want=want)
+        except Exception as exc:
+            res.violation(f"expression with large integer coefficients raised {type(exc).__name__}: {str(exc)[:200]}",
+                          {"expression": text, "sympy_form": str(getattr(e, "_sympy_expr", "?"))[:200]})
     if use_numba and res.spec.get("known_finding_probe"):
         # fixed witness of known finding F20 (reported on every run)
         e = ScalarExpression("abs(exp(sqrt(y)))", signature=["x", "y"])
